@@ -16,40 +16,40 @@ func c18Profile() *profile {
 		clients: [2]int{1, 3},
 		steps:   [2]int{3, 80},
 		ops: weighted(map[string]int{
-			"bootstrap": 1,
-			"reregister": 2,
-			"exchange_id": 1,
-			"create_session": 2,
-			"destroy_session": 1,
-			"destroy_clientid": 1,
-			"shutdown": 1,
-			"open": 12,
-			"open_fh": 6,
-			"open_then": 3,
-			"close": 7,
-			"downgrade": 6,
-			"lock_new": 7,
-			"lock_existing": 4,
-			"lockt": 2,
-			"locku": 4,
-			"free_stateid": 4,
-			"test_stateid": 3,
-			"read": 6,
-			"write": 6,
-			"setattr": 3,
-			"remove": 3,
-			"lookup": 2,
-			"probe": 4,
-			"noop": 1,
-			"reclaim_complete": 1,
-			"destroy_session_inseq": 1,
+			"bootstrap":              1,
+			"reregister":             2,
+			"exchange_id":            1,
+			"create_session":         2,
+			"destroy_session":        1,
+			"destroy_clientid":       1,
+			"shutdown":               1,
+			"open":                   12,
+			"open_fh":                6,
+			"open_then":              3,
+			"close":                  7,
+			"downgrade":              6,
+			"lock_new":               7,
+			"lock_existing":          4,
+			"lockt":                  2,
+			"locku":                  4,
+			"free_stateid":           4,
+			"test_stateid":           3,
+			"read":                   6,
+			"write":                  6,
+			"setattr":                3,
+			"remove":                 3,
+			"lookup":                 2,
+			"probe":                  4,
+			"noop":                   1,
+			"reclaim_complete":       1,
+			"destroy_session_inseq":  1,
 			"destroy_clientid_inseq": 1,
-			"release": 9,
-			"advance": 3,
-			"advance_small": 3,
-			"replay": 2,
-			"misordered": 1,
-			"bad_session": 1,
+			"release":                9,
+			"advance":                3,
+			"advance_small":          3,
+			"replay":                 2,
+			"misordered":             1,
+			"bad_session":            1,
 		}),
 		oracle:   map[string]bool{"acct": true},
 		parkPct:  35,
@@ -68,35 +68,35 @@ func c19Profile() *profile {
 		clients: [2]int{1, 2},
 		steps:   [2]int{3, 80},
 		ops: weighted(map[string]int{
-			"bootstrap": 1,
-			"reregister": 1,
-			"create_session": 5,
-			"destroy_session": 1,
-			"open": 10,
-			"open_fh": 4,
-			"open_then": 3,
-			"close": 6,
-			"downgrade": 3,
-			"lock_new": 6,
-			"lock_existing": 3,
-			"locku": 3,
-			"free_stateid": 2,
-			"read": 5,
-			"write": 5,
-			"remove": 2,
-			"lookup": 2,
-			"noop": 1,
+			"bootstrap":             1,
+			"reregister":            1,
+			"create_session":        5,
+			"destroy_session":       1,
+			"open":                  10,
+			"open_fh":               4,
+			"open_then":             3,
+			"close":                 6,
+			"downgrade":             3,
+			"lock_new":              6,
+			"lock_existing":         3,
+			"locku":                 3,
+			"free_stateid":          2,
+			"read":                  5,
+			"write":                 5,
+			"remove":                2,
+			"lookup":                2,
+			"noop":                  1,
 			"destroy_session_inseq": 1,
-			"release": 10,
-			"advance_small": 2,
-			"advance": 1,
-			"replay": 12,
-			"dup": 10,
-			"false_retry": 7,
-			"misordered": 4,
-			"stale_busy": 2,
-			"bad_slot": 2,
-			"bad_session": 1,
+			"release":               10,
+			"advance_small":         2,
+			"advance":               1,
+			"replay":                12,
+			"dup":                   10,
+			"false_retry":           7,
+			"misordered":            4,
+			"stale_busy":            2,
+			"bad_slot":              2,
+			"bad_session":           1,
 		}),
 		oracle:   map[string]bool{"acct": true},
 		parkPct:  50,
@@ -114,24 +114,24 @@ func c20Profile() *profile {
 		clients: [2]int{1, 2},
 		steps:   [2]int{3, 80},
 		ops: weighted(map[string]int{
-			"bootstrap": 1,
-			"reregister": 1,
-			"open": 8,
-			"open_fh": 4,
-			"close": 4,
-			"downgrade": 1,
-			"lock_new": 16,
+			"bootstrap":     1,
+			"reregister":    1,
+			"open":          8,
+			"open_fh":       4,
+			"close":         4,
+			"downgrade":     1,
+			"lock_new":      16,
 			"lock_existing": 14,
-			"lockt": 12,
-			"locku": 12,
-			"free_stateid": 5,
-			"read": 1,
-			"remove": 1,
-			"lookup": 1,
-			"advance": 1,
+			"lockt":         12,
+			"locku":         12,
+			"free_stateid":  5,
+			"read":          1,
+			"remove":        1,
+			"lookup":        1,
+			"advance":       1,
 			"advance_small": 3,
-			"release": 2,
-			"replay": 1,
+			"release":       2,
+			"replay":        1,
 		}),
 		oracle:   map[string]bool{"acct": true},
 		parkPct:  15,
